@@ -8,7 +8,7 @@ From Coquelicot Require Import Coquelicot.
 From ND.lib Require Import Expr ExprSound.
 From ND.model Require Import Legacy.
 From ND.gen Require Import Gen_C20.
-From ND.proofs Require Import C20_approx C20_samplers C20_loops.
+From ND.proofs Require Import C20_approx C20_samplers C20_loops C20_genloops.
 Import ListNotations.
 Open Scope R_scope.
 
@@ -145,3 +145,57 @@ Theorem C20_history_one_per_epoch : forall (V : Type) (tl vl : nat -> V) (tm vm 
     /\ (forall key f, tracked V tl vl tm vm metrics key f -> lookup V h key = Some (map f (seq 0 max_epochs)))
     /\ List.Forall (fun kv => length (snd kv) = max_epochs) h.
 Proof. exact history_one_per_epoch_all. Qed.
+
+(* ================= the same, about what the SOURCE says =======================================
+   `train_*_loop_{init,cond,body}` are the index arithmetic of the `while` loops of
+   _train_1dspatial_temporal / _train_2dspatial / _train_2dspatial_temporal, and
+   `history_init_keys / history_init_prefixes / history_epoch_ops` the history operations of
+   _solve_spatial_temporal, regenerated from temporal.py on every run (tools/props/t_C20.py,
+   LoopTranslator; the translator also checks that the sliced sequence is
+   `torch.randperm(N) if shuffle else torch.arange(N)` with N the loop bound and that
+   calculate_loss receives the training tensors indexed by exactly that slice). *)
+
+(* each generated loop, run with fuel n + 1, takes exactly the slices of the hand model, for every
+   sequence of length n and every batch size (0 included: both sides diverge) *)
+Theorem C20_train_loops_are_model : forall (A : Type) (idx : list A) (n bs : nat),
+  length idx = n ->
+  option_map' (slices_of idx)
+    (while_fuel (train_1dspatial_temporal_loop_cond bs n) (train_1dspatial_temporal_loop_body bs n) (S n)
+                (train_1dspatial_temporal_loop_init bs n)) = minibatches idx n bs /\
+  option_map' (slices_of idx)
+    (while_fuel (train_2dspatial_loop_cond bs n) (train_2dspatial_loop_body bs n) (S n) (train_2dspatial_loop_init bs n))
+    = minibatches idx n bs /\
+  option_map' (slices_of idx)
+    (while_fuel (train_2dspatial_temporal_loop_cond bs n) (train_2dspatial_temporal_loop_body bs n) (S n)
+                (train_2dspatial_temporal_loop_init bs n)) = minibatches idx n bs.
+Proof.
+  exact (fun A idx n bs E => conj (train_1dspatial_temporal_loop_model idx n bs E)
+                                  (conj (train_2dspatial_loop_model idx n bs E) (train_2dspatial_temporal_loop_model idx n bs E))).
+Qed.
+
+(* hence every generated loop terminates and partitions any permutation, batch_size >= 1 *)
+Theorem C20_generated_minibatch_partition : forall (n bs : nat) (idx : list nat),
+  Permutation idx (seq 0 n) -> 1 <= bs ->
+  partitions n bs idx (while_fuel (train_1dspatial_temporal_loop_cond bs n) (train_1dspatial_temporal_loop_body bs n) (S n)
+                                  (train_1dspatial_temporal_loop_init bs n)) /\
+  partitions n bs idx (while_fuel (train_2dspatial_loop_cond bs n) (train_2dspatial_loop_body bs n) (S n)
+                                  (train_2dspatial_loop_init bs n)) /\
+  partitions n bs idx (while_fuel (train_2dspatial_temporal_loop_cond bs n) (train_2dspatial_temporal_loop_body bs n) (S n)
+                                  (train_2dspatial_temporal_loop_init bs n)).
+Proof. exact generated_loops_partition. Qed.
+
+(* the generated history operations are the hand model, hence one entry per epoch per series *)
+Theorem C20_history_ops_are_model : forall (V : Type) (tl vl : nat -> V) (tm vm : nat -> string -> V)
+    (metrics : list string) (max_epochs : nat),
+  gen_solve tl vl tm vm history_init_keys history_init_prefixes history_epoch_ops metrics max_epochs
+  = solve tl vl tm vm metrics max_epochs.
+Proof. exact gen_solve_is_model. Qed.
+
+Theorem C20_generated_history_one_per_epoch : forall (V : Type) (tl vl : nat -> V) (tm vm : nat -> string -> V)
+    (metrics : list string) (max_epochs : nat),
+  NoDup metrics -> ~ In "loss"%string metrics ->
+  exists h, gen_solve tl vl tm vm history_init_keys history_init_prefixes history_epoch_ops metrics max_epochs = Some h
+    /\ map fst h = keys metrics
+    /\ (forall key f, tracked V tl vl tm vm metrics key f -> lookup V h key = Some (map f (seq 0 max_epochs)))
+    /\ List.Forall (fun kv => length (snd kv) = max_epochs) h.
+Proof. exact generated_history_one_per_epoch. Qed.
